@@ -44,7 +44,14 @@ TRUSTED = ['Pass/Opt.v: hand-written model of passes.py (tied structurally + beh
            'Gen/ConstFold.v is regenerated from the source',
            'steady-state proviso: registers the real pass eliminates start at the value the ORIGINAL design '
            'settles them to after (#registers + 1) cycles (their compile-time constant, if they have one)']
-ASSUMPTIONS = ['designs are API-built: w / r nets and CSE-equal nets have equal-width destinations '
+ASSUMPTIONS = ['the whole-pass preservation theorems (C04_optimize_preserves, C04_constant_propagation_preserves, '
+               'C04_cse_preserves, C04_removal_stages, C04_optimize_twice_preserves) have DECIDABLE premises '
+               '(optimize_ok, constant_propagation_ok, cse_ok, wire/slice/unlistened_stage_ok in Pass/OptCheck.v: wfb of '
+               'every intermediate netlist, API width facts, producer-map resolution, Inputs/Outputs kept) and the decidable '
+               'form of the steady-state hypothesis; they are evaluated in Coq on every (design, form, pass, application) '
+               'whose model is evaluated, and a false premise is reported as a broken correspondence; that they hold of '
+               'EVERY well-formed API-built netlist (C04_premises_always_hold_full_statement) is not proved',
+               'designs are API-built: w / r nets and CSE-equal nets have equal-width destinations '
                '(sanity_check also accepts truncating ones; the passes are not exercised on those)',
                'ROM contents are tabulated at dump time',
                'set-iteration order is the one CPython produces under PYTHONHASHSEED=0; the model is '
@@ -54,8 +61,9 @@ PASSES = ['optimize', 'constant_propagation', 'common_subexp_elimination',
           '_remove_wire_nets', '_remove_slice_nets', '_remove_unlistened_nets']
 PASS_CODE = {p: i for i, p in enumerate(PASSES)}
 CSE_LIKE = {'optimize', 'common_subexp_elimination'}
-PREMISE = {'_remove_wire_nets': 'wire_removal_ok', '_remove_slice_nets': 'slice_removal_ok',
-           '_remove_unlistened_nets': 'unlistened_ok'}
+PREMISE = {'optimize': 'optimize_ok', 'constant_propagation': 'constant_propagation_ok',
+           'common_subexp_elimination': 'cse_ok', '_remove_wire_nets': 'wire_stage_ok',
+           '_remove_slice_nets': 'slice_stage_ok', '_remove_unlistened_nets': 'unlistened_stage_ok'}
 FORMS = ['word', 'synth', 'nand', 'aig']
 COMMUTATIVE = set('&|^n+*=')
 OPCODES = ['w', '~', '&', '|', '^', 'n', '+', '-', '*', '<', '>', '=', 'x', 'c', 's', 'r', 'm', '@']
@@ -859,7 +867,7 @@ def run(ctx):
             if m is None:
                 continue
             rows_w, rows_n, mtr = m
-            mwf, api_ok, side_ok = mtr[0]
+            mwf, api_ok, side_ok, steady_ok = mtr[0]
             mtrace = mtr[1:]
             ctx.count('tie_cases', pname)
             ctx.count('api_built_assumption', 'holds' if api_ok == 1 else 'fails')
@@ -878,6 +886,11 @@ def run(ctx):
                 continue
             if mwf != 1:
                 ctx.model_mismatch('model result of %s is not wfb (design %d %s x%d)' % (pname, c['i'], c['form'], reps), rep)
+            if pname in ('optimize', 'constant_propagation'):
+                ctx.count('theorem_steady_hypothesis:' + pname, 'holds' if steady_ok == 1 else 'fails')
+                if steady_ok != 1:
+                    ctx.model_mismatch('the initial state does not satisfy the steady-state hypothesis of the '
+                                       'preservation theorem of %s (design %d %s x%d)' % (pname, c['i'], c['form'], reps), rep)
             mw, mn = model_exact(rows_w, rows_n, c['names'])
             rw, rn = r['exact']
             if pname in CSE_LIKE:
